@@ -1,3 +1,4 @@
+mod calls;
 mod checks;
 mod conv;
 mod harness;
@@ -22,7 +23,10 @@ pub struct Plan {
 fn plan(prop: &str, tier: Tier) -> Option<Plan> {
     let (spaces, (rule, bounds, assumptions)) = match prop {
         "C01" => (checks::c01::spaces(tier), checks::c01::meta(tier)),
+        "C03" => (checks::c03::spaces(tier), checks::c03::meta(tier)),
         "C04" => (checks::c04::spaces(tier), checks::c04::meta(tier)),
+        "C05" => (checks::c05::spaces(tier), checks::c05::meta(tier)),
+        "C06" => (checks::c06::spaces(tier), checks::c06::meta(tier)),
         "C12" => (checks::c12::spaces(tier), checks::c12::meta(tier)),
         "C13" => (checks::c13::spaces(tier), checks::c13::meta(tier)),
         "C14" => (checks::c14::spaces(tier), checks::c14::meta(tier)),
